@@ -17,6 +17,7 @@ import pathlib
 import random
 import re
 from collections.abc import Callable, Iterable, Iterator
+from copy import copy
 from datetime import datetime, timedelta
 from decimal import Decimal
 from itertools import product
@@ -600,7 +601,7 @@ def select__array_fold_left_right_functions(self: XPathFunction, context: ta.Con
 
     assert isinstance(func, XPathFunction)
     array_: XPathArray = self.get_argument(context, required=True, cls=XPathArray)
-    zero = self.get_argument(context, index=1)
+    zero = self[1].evaluate(copy(context))  # the zero value is a sequence, also empty
 
     result = zero
 
